@@ -160,7 +160,8 @@ class Run:
             e.update(env)
         p = subprocess.run([self.harness, "drive", driver, self.tier, str(self.seed), outdir, str(NSHARDS)],
                            env=e, stdout=subprocess.PIPE, stderr=subprocess.PIPE, text=True)
-        if p.returncode != 0:
+        race_exit = p.returncode == 66 and env and "GORACE" in env      # the race detector's exit status: reports were written
+        if p.returncode != 0 and not race_exit:
             raise Infra("driver %s failed rc=%d:\n%s" % (driver, p.returncode, p.stderr[-3000:]))
         info = json.loads(p.stdout.strip().splitlines()[-1])
         self.drivers.append(info)
